@@ -119,6 +119,7 @@ package regclient
 //@   ensures one-send: $sent == 1
 //@ func (*RegClient).imageCopyOpt$6
 //@   prop C04, C03
+//@   requires referrer-target-is-a-digest-reference: referrerTgt.Tag == ""
 //@   entry-assume $sent == 0
 //@   on-send waitCh: $sent = $sent + 1
 //@   ensures one-send: $sent == 1
@@ -195,3 +196,17 @@ package regclient
 //@   in ~
 //@   infunc \)\.ImageCopy$
 //@   requires target-gc-locked: caller.isGCLocker ==> $gcLocks == 1
+
+// ---- C03: a copy whose target reference is a tag records that tag ----
+// Inside the recursive copy, a copy started for a TAGGED target (the digest-tags of a manifest) is
+// never started as a child copy: a child copy is stored without its name (an OCI layout does not
+// enter it into the index), so the tag the copy was asked for would not resolve at the target.
+//@ callsite (*RegClient).imageCopyOpt(ctx, refSrc, refTgt, d, child, parents, opt)
+//@   prop C03
+//@   name imageCopyOpt/tagged-target
+//@   in ~
+//@   infunc \)\.imageCopyOpt(\$\d+)*$
+//@   requires tagged-target-is-not-a-child-copy: refTgt.Tag != "" && refTgt.Digest == "" ==> !child
+//@ func (*RegClient).imageCopyOpt$6$1
+//@   prop C03
+//@   requires referrer-target-is-a-digest-reference: referrerTgt.Tag == ""
